@@ -21,7 +21,8 @@ RULE = ('Linear regime: valid chains (no self-locking mating), constant load (be
         'Tmax(D) / (D w0 J_eq) recomputed from the case; horizon 3..6 / k; FOUR simulations per case with steps dt0 / 2^j, '
         'j = 0..3, k dt0 <= 0.2, dt in random units; in a third of the cases each simulation is a run plus a continued '
         'run whose dt and T are written in another time unit, and in a quarter the first run is cut short by a stop '
-        'condition and then continued. Oracle: w(t) = w_inf + (w(0) - w_inf) exp(-k t), theta(t) = theta0 '
+        'condition and then continued; in another quarter a gear mating is first declared with another efficiency, a '
+        'throw-away run is made, and after reset + re-declaration the same Solver must follow the closed form of the chain as it is now. Oracle: w(t) = w_inf + (w(0) - w_inf) exp(-k t), theta(t) = theta0 '
         '+ w_inf t + (w(0) - w_inf)(1 - exp(-k t)) / k. Checked at EVERY instant of every run: |w_sim - w| <= 0.5 (k dt) '
         '|w(0) - w_inf| and |theta_sim - theta| <= (k dt) |w(0) - w_inf| / k (1 + k t); at the common time t* ~ 1/k '
         'the error ratio err(dt_j) / err(dt_j+1) must lie in [1.6, 2.5] whenever the finer error is above 1e6 eps of the '
@@ -82,8 +83,28 @@ def check(case) -> Result:
                 c['stop'] = {'sensor': 'encoder', 'target': mdl.n - 1, 'op': 'ge' if th_f > th0 else 'le',
                              'threshold': G.qty('AngularPosition', th_f, st_['unit'])}
                 c['history'] = [dict(hist[0], stop=True)]
+        rd = case.get('redeclare')
         try:
-            if c.get('stop'):
+            if rd is not None and not sp and not c.get('stop'):
+                # the gear mating `rd['link']` is first declared with another efficiency; a throw-away run is made, the
+                # powertrain is reset, the mating is declared again with the case's efficiency and the SAME Solver reruns:
+                # the trajectory must be the closed form of the chain as it is now
+                import gearpy.utils as gu
+                i = rd['link']
+                c0 = dict(c, chain=[dict(e, link=dict(e['link'], eta=rd['eta0'])) if k == i - 1 else e
+                                    for k, e in enumerate(c['chain'])])
+                b = S.build(c0)
+                traces, err = [], None
+                try:
+                    S.run_op(b, hist[0])
+                    S.run_op(b, {'op': 'reset', 'reinit': True})
+                    gu.add_gear_mating(master=b.elements[i - 1], slave=b.elements[i], efficiency=c['chain'][i - 1]['link']['eta'])
+                    S.run_op(b, hist[0])
+                    traces = [S.Trace(b)]
+                    res.classes += ('efficiency-redeclared',)
+                except Exception as e:  # noqa
+                    err = e
+            elif c.get('stop'):
                 b = S.build(c)
                 traces, err = [], None
                 try:
@@ -200,6 +221,10 @@ def s_case(draw, max_len=5):
     elif v == 1:
         # ... or through a run stopped early by a stop condition and then continued
         case['stop_then_continue'] = {'frac': draw(st.floats(0.1, 0.8)), 'unit': draw(G.s_unit('AngularPosition'))}
+    elif v == 2:
+        gear_links = [k + 1 for k, e in enumerate(case['chain']) if e['link']['kind'] == 'gear']
+        if gear_links:
+            case['redeclare'] = {'link': draw(st.sampled_from(gear_links)), 'eta0': draw(st.floats(0.5, 1.0))}
     return case
 
 
